@@ -9,6 +9,7 @@ Fixpoint elem_eqb (a b : elem) {struct a} : bool :=
   | EBool x, EBool y => Bool.eqb x y
   | EInt x, EInt y => x =? y
   | EStr x, EStr y => String.eqb x y
+  | EAtom a _ _, EAtom b _ _ => Nat.eqb a b
   | EArr x, EArr y =>
       (fix go (p q : list elem) : bool :=
          match p, q with
